@@ -6,14 +6,8 @@ package main
 
 import (
 	"fmt"
-	"os"
 	"strings"
 )
-
-// VERIF_C20_EMBDISJ=1 makes the embedded-disjunction forms of unitDisjStruct as frequent as
-// the others (used to validate a fix of the trim-stack-overflow finding; without a fix each
-// unresolved one kills a worker).
-var c20EmbDisjFrequent = os.Getenv("VERIF_C20_EMBDISJ") != ""
 
 // a leaf schema with the data values that relate to it
 type c20leaf struct {
@@ -303,12 +297,9 @@ func (g *c20gen) unitPattern() {
 
 func (g *c20gen) unitDisjStruct() {
 	d := g.id("#U")
-	form := g.r.Intn(2)
-	if g.r.Chance(1, 40) || (c20EmbDisjFrequent && g.r.Bool()) {
-		// (embedded disjunctions: trim.Files does not terminate on a definition of this
-		// shape that is left unresolved — kept rare because each one costs a worker)
-		form = 2 + g.r.Intn(2)
-	}
+	// (forms 2 and 3 embed the disjunction in a struct literal: trim.Files used not to
+	// terminate on those when left unresolved, fixed in 343415b)
+	form := g.r.Intn(4)
 	switch form {
 	case 0:
 		g.add(fmt.Sprintf(`%s: {kind: "x", vx: int} | {kind: "y", vy: string}`, d))
@@ -548,7 +539,7 @@ func c20GenPackage(r *Rng, errOK bool) (c20Pkg, map[string]bool) {
 	var feats map[string]bool
 	for try := 0; try < 4; try++ {
 		p, feats = c20GenPackage1(r.Sub(), errOK)
-		if errOK || c20HasEmbeddedDisjunction(p) {
+		if errOK {
 			break
 		}
 		if l, err := c20Load(p); err == nil && l.val.Err() == nil {
